@@ -72,9 +72,9 @@ ASSUMPTIONS = [
 # is several times slower than running them inline
 NO_FORK = True
 EXHAUSTIVE = {}   # only a sub-family is exhaustive (authorities over b'a1:@/[]' up to length 6 / 3)
-EXPLANATION = ('port 0 (http://h:0/ connects to port 80; CONNECT h:0 is dropped without a response), userinfo without '
-               'a colon (rejected with 400) [D8b] and userinfo in front of a port-less IPv6 literal (host becomes the '
-               'whole authority) [D8c] are kept outside the oracle domain unless known_findings.json lists them open')
+EXPLANATION = ('port 0 (http://h:0/ connects to port 80; CONNECT h:0 is dropped without a response) and userinfo without '
+               'a colon (rejected with 400) [D8b] are kept outside the oracle domain unless known_findings.json lists them '
+               'open; userinfo in front of a port-less IPv6 literal (D8c, fixed by dbfef2b) is inside the grammar')
 
 
 def _open_findings():
@@ -90,7 +90,6 @@ def _open_findings():
 
 OPEN = _open_findings()
 D8B_CLASSES = ('port0', 'ui-nocolon')
-D8C_CLASSES = ('ui-v6-noport',)
 
 
 # --------------------------------------------------------------------------- spec side (python)
@@ -147,12 +146,11 @@ def spec_wf(s):
     if s['user'] is not None:
         uok = re.search(rb'[:@/]', bytes.fromhex(s['user']) + bytes.fromhex(s['pass'])) is None
     pok = s['port'] is None or s['port'] <= 65535
-    d8c = s['user'] is not None and s['hk'] == 'v6' and s['port'] is None
     if s['form'] == 'authority':
-        return bool(uok and hok and pok and not d8c)
+        return bool(uok and hok and pok)
     sch = bytes.fromhex(s['scheme'])
     return bool(sch in _allowed() and re.search(rb'[:/]', sch) is None and uok and hok and pok
-                and (pathq == b'' or pathq.startswith(b'/')) and not d8c)
+                and (pathq == b'' or pathq.startswith(b'/')))
 
 
 def spec_line_py(s):
@@ -256,7 +254,7 @@ def run_handler(request, pool=False, want_acquired=False):
             up.pump()
             upstream = _first_line(up.inbox) if up.inbox else b''
         if raised:
-            out = 'raised ' + ('unicode' if isinstance(td[1], UnicodeDecodeError) else type(td[1]).__name__)
+            out = 'raised ' + type(td[1]).__name__
         elif connect is not None:
             out = 'tunnel' if h.request.is_https_tunnel else 'forward'
         elif client:
@@ -416,8 +414,6 @@ def in_domain(case):
         return True
     if c in D8B_CLASSES:
         return 'D8b' in OPEN
-    if c in D8C_CLASSES:
-        return 'D8c' in OPEN
     return False
 
 
@@ -586,15 +582,12 @@ def classify(case, sig):
         return 'D8b'
     if c == 'ui-nocolon' and sig == 'valid-target-rejected':
         return 'D8b'
-    if c in D8C_CLASSES and sig == 'host-differs':
-        return 'D8c'
     return None
 
 
 def finding_witnesses():
     return {
         'D8b': _mk('req', 'port0', _spec('absolute', None, 'reg', b'h', 0, b'/'), 'GET'),
-        'D8c': _mk('req', 'ui-v6-noport', _spec('absolute', (b'u', b'p'), 'v6', b'::1', None, b'/x'), 'GET'),
     }
 
 
@@ -729,8 +722,6 @@ def gen_spec(rng, form):
 def spec_class(s):
     if s['form'] == 'origin':
         return 'grammar'
-    if s['user'] is not None and s['hk'] == 'v6' and s['port'] is None:
-        return 'ui-v6-noport'
     if s['port'] == 0:
         return 'port0'
     return 'grammar'
@@ -828,7 +819,7 @@ def corpus():
         _spec('absolute', None, 'v6', b'::ffff:1.2.3.4', None, b'/'),
         _spec('absolute', None, 'v6', b'1:2:3:4:5:6:7:8', 65535, b'/'),
         _spec('absolute', (b'u', b'p'), 'v6', b'2001:DB8::a', 80, b'/x'),
-        _spec('absolute', (b'u', b'p'), 'v6', b'::1', None, b'/x'),          # D8c
+        _spec('absolute', (b'u', b'p'), 'v6', b'::1', None, b'/x'),          # was D8c (fixed dbfef2b)
         _spec('absolute', None, 'reg', b'h', 0, b'/'),                      # D8b
         _spec('absolute', None, 'reg', b'b\xc3\xbccher.example', None, b'/\xc3\xa9'),
         _spec('absolute', None, 'reg', b'xn--bcher-kva.example', 443, b'/', b'https'),
@@ -843,7 +834,7 @@ def corpus():
         _spec('authority', None, 'v6', b'2001:db8::1', None, b''),
         _spec('authority', (b'u', b'p'), 'reg', b'h', 1, b''),
         _spec('authority', None, 'reg', b'h', 0, b''),                      # D8b
-        _spec('authority', (b'u', b'p'), 'v6', b'::1', None, b''),          # D8c
+        _spec('authority', (b'u', b'p'), 'v6', b'::1', None, b''),          # was D8c (fixed dbfef2b)
     ]:
         cs.append(_mk('url', spec_class(s), s))
         cs.append(_mk('req', spec_class(s), s, 'CONNECT'))
